@@ -1,6 +1,7 @@
 import ObiVerif.Model.SeqOps
 import ObiVerif.Lemmas.SeqOps
 import ObiVerif.Lemmas.SeqHeapStep
+import ObiVerif.Lemmas.SeqHeapRefine
 /-!
 # C07 — reverse complement, subsequence and copy obey their algebraic laws (property theorems)
 
@@ -537,5 +538,194 @@ theorem heap_no_alias (ops : List HOp) (ch : Nat → Nat → Nat) (i : Nat) (h h
       simp only [hs] at hr
       rw [ih (i + 1) h1 (step_ok hI hs).1 hr (fun o ho => hn o (List.mem_cons_of_mem _ ho))]
       exact (step_ok hI hs).2 n (hn op (by simp))
+
+/-! ## The heap implements the value semantics: the algebraic laws hold of the heap-level transcription
+
+`SeqHeap.vstep` is the value semantics (objects are values).  `heap_step_refines` /
+`heap_run_refines`: whatever `sync.Pool` and `append` decide, what can be observed of every object
+after the heap-level operation(s) is what the value semantics computes — so `rc_rc_inplace`,
+`rc_subseq`, … proved on values hold of the objects living in pooled buffers (`heap_rc_rc`,
+`heap_rc_sub` below). -/
+
+open ObiVerif.SeqHeap in
+theorem heap_step_refines {h : Heap} (hI : Inv h) (ch : Nat → Nat) (op : HOp) :
+    sim (step h ch op) = vstep h.view op := step_refines hI ch op
+
+open ObiVerif.SeqHeap in
+theorem heap_run_refines (ops : List HOp) (ch : Nat → Nat → Nat) (i : Nat) (h : Heap) (hI : Inv h) :
+    sim (SeqHeap.run h ch i ops) = vrun h.view ops := run_refines ops ch i h hI
+
+open ObiVerif.SeqHeap in
+/-- from the empty heap: a history succeeds on the heap exactly when it does in the value semantics, with
+the same error otherwise, and then every object shows the value the value semantics gives it -/
+theorem heap_run_refines_empty (ops : List HOp) (ch : Nat → Nat → Nat) :
+    sim (SeqHeap.run Heap.empty ch 0 ops) = vrun (fun _ => none) ops :=
+  run_refines ops ch 0 Heap.empty Inv.empty
+
+open ObiVerif.SeqHeap in
+theorem run_of_vrun {ops : List HOp} {ch : Nat → Nat → Nat} {i : Nat} {h : Heap} (hI : Inv h) {v' : VStore}
+    (hv : vrun h.view ops = .ok v') : ∃ h', SeqHeap.run h ch i ops = .ok h' ∧ h'.view = v' := by
+  have hr := run_refines ops ch i h hI
+  rw [hv] at hr
+  cases hs : SeqHeap.run h ch i ops with
+  | error e => rw [hs] at hr; simp [sim] at hr
+  | ok h' =>
+    rw [hs] at hr
+    simp only [sim, Except.ok.injEq] at hr
+    exact ⟨h', rfl, hr⟩
+
+open ObiVerif.SeqHeap in
+theorem vput_same (v : VStore) (a : String) (o : Option OV) : vput v a o a = o := by simp [vput]
+open ObiVerif.SeqHeap in
+theorem vput_ne (v : VStore) {a n : String} (o : Option OV) (h : n ≠ a) : vput v a o n = v n := by simp [vput, h]
+
+open ObiVerif.SeqHeap in
+/-- value semantics: `b := a.ReverseComplement(false); c := b.ReverseComplement(false)` gives `c` the
+value of `a` (bases, qualities, features, annotations) and leaves `a` alone -/
+theorem vrun_rc_rc (v : VStore) (a b c : String) (oa : OV) (ha : v a = some oa) (hb : v b = none)
+    (hc : v c = none) (hbc : b ≠ c) (hal : ∀ x ∈ oa.seq, x ∈ alphabet) :
+    ∃ v', vrun v [.rc a b, .rc b c] = .ok v' ∧ v' c = some oa ∧ v' a = some oa := by
+  have hab : a ≠ b := by intro e; rw [e, hb] at ha; cases ha
+  have hac : a ≠ c := by intro e; rw [e, hc] at ha; cases ha
+  refine ⟨vput (vput v b (some ⟨revcompInPlace oa.seq, reverseInPlace oa.qual, oa.feat, oa.ann⟩)) c
+    (some ⟨revcompInPlace (revcompInPlace oa.seq), reverseInPlace (reverseInPlace oa.qual), oa.feat, oa.ann⟩), ?_, ?_, ?_⟩
+  · simp only [vrun, vstep, ha, hb, vput_same, vput_ne _ _ (Ne.symm hbc), hc]
+  · rw [vput_same, rc_rc_inplace _ hal, reverse_reverse_inplace]
+  · rw [vput_ne _ _ hac, vput_ne _ _ hab, ha]
+
+open ObiVerif.SeqHeap in
+/-- **rc ∘ rc = id on the heap**: for every reachable-style heap (invariant), every live object `a` over
+the alphabet, and every decision of the pool during the two `ReverseComplement(false)` calls (buffers
+handed out again, fresh ones, …): the second reverse complement shows exactly the bases, qualities,
+features and annotations of `a`, and `a` still shows them too. -/
+theorem heap_rc_rc {h : Heap} (hI : Inv h) (ch : Nat → Nat → Nat) (i : Nat) (a b c : String) (oa : OV)
+    (ha : h.view a = some oa) (hb : h.view b = none) (hc : h.view c = none) (hbc : b ≠ c)
+    (hal : ∀ x ∈ oa.seq, x ∈ alphabet) :
+    ∃ h', SeqHeap.run h ch i [.rc a b, .rc b c] = .ok h' ∧ h'.view c = some oa ∧ h'.view a = some oa := by
+  obtain ⟨v', hv, h1, h2⟩ := vrun_rc_rc h.view a b c oa ha hb hc hbc hal
+  obtain ⟨h', hr, he⟩ := run_of_vrun (ch := ch) (i := i) hI hv
+  exact ⟨h', hr, by rw [he]; exact h1, by rw [he]; exact h2⟩
+
+/-- non-vacuity of `heap_rc_rc`: from the empty heap, under the pool policy "always hand out the most
+recently recycled buffer", after building `a` (with qualities), recycling a scratch buffer and a copy -/
+example : ∃ h h', SeqHeap.run SeqHeap.Heap.empty (fun _ _ => 0) 0
+      [.new "a" [97, 99, 103, 116, 110] (some [1, 2, 3, 4, 5]), .scratch 5 7, .copy "a" "x", .recycle "x"] = .ok h ∧
+    SeqHeap.run h (fun _ _ => 0) 4 [.rc "a" "b", .rc "b" "c"] = .ok h' ∧
+    h'.view "c" = some ⟨[97, 99, 103, 116, 110], [1, 2, 3, 4, 5], [], []⟩ := by
+  have hv : SeqHeap.vrun (fun _ => none)
+      [.new "a" [97, 99, 103, 116, 110] (some [1, 2, 3, 4, 5]), .scratch 5 7, .copy "a" "x", .recycle "x"] =
+      .ok (SeqHeap.vput (SeqHeap.vput (SeqHeap.vput (fun _ => none) "a" (some ⟨[97, 99, 103, 116, 110], [1, 2, 3, 4, 5], [], []⟩))
+        "x" (some ⟨[97, 99, 103, 116, 110], [1, 2, 3, 4, 5], [], []⟩)) "x" none) := by
+    simp [SeqHeap.vrun, SeqHeap.vstep, SeqHeap.vput, SeqHeap.badQual, lower]
+  obtain ⟨h, hr, he⟩ := run_of_vrun (ch := fun _ _ => 0) (i := 0) SeqHeap.Inv.empty hv
+  have hI := heap_run_inv _ _ 0 _ h SeqHeap.Inv.empty hr
+  obtain ⟨h', hr', h1, _⟩ := heap_rc_rc hI (fun _ _ => 0) 4 "a" "b" "c" ⟨[97, 99, 103, 116, 110], [1, 2, 3, 4, 5], [], []⟩
+    (by rw [he]; simp [SeqHeap.vput]) (by rw [he]; simp [SeqHeap.vput]) (by rw [he]; simp [SeqHeap.vput])
+    (by decide) (by decide)
+  exact ⟨h, h', hr, hr', h1⟩
+
+open ObiVerif.SeqHeap in
+/-- value semantics of the two ways round a linear window `[fr, to)` of an object whose qualities are
+absent or as long as the sequence: cut then reverse-complement (`c`), reverse-complement then cut the
+mirrored window (`d`) — same bases, same qualities, same annotations -/
+theorem vrun_rc_sub (v : VStore) (a b c r d : String) (oa : OV) (fr to : Nat)
+    (ha : v a = some oa) (hb : v b = none) (hc : v c = none) (hr : v r = none) (hd : v d = none)
+    (hbc : b ≠ c) (hrd : r ≠ d) (hft : fr < to) (hto : to ≤ oa.seq.length)
+    (hq : oa.qual = [] ∨ oa.qual.length = oa.seq.length) :
+    ∃ v1 v2, vrun v [.sub a b fr to false, .rc b c] = .ok v1 ∧
+      vrun v [.rc a r, .sub r d ((oa.seq.length - to : Nat) : Int) ((oa.seq.length - fr : Nat) : Int) false] = .ok v2 ∧
+      v1 c = v2 d ∧ v1 c = some ⟨revcompInPlace (win oa.seq fr to), reverseInPlace (win oa.qual fr to), [], oa.ann⟩ := by
+  have hl : (revcompInPlace oa.seq).length = oa.seq.length := revcompInPlace_length _
+  have w1 := subWindow_linear oa.seq.length fr to hft hto
+  have w2 := subWindow_linear oa.seq.length (oa.seq.length - to) (oa.seq.length - fr) (by omega) (by omega)
+  have es : revcompInPlace (win oa.seq fr to) =
+      win (revcompInPlace oa.seq) (oa.seq.length - to) (oa.seq.length - fr) := by
+    rw [revcompInPlace_eq_rc, revcompInPlace_eq_rc]
+    exact map_rev_win nucComplement oa.seq fr to (by omega) hto
+  have eq : reverseInPlace (win oa.qual fr to) =
+      win (reverseInPlace oa.qual) (oa.seq.length - to) (oa.seq.length - fr) := by
+    rcases hq with hq | hq
+    · rw [hq, win_nil, reverseInPlace_nil, win_nil]
+    · rw [reverseInPlace_eq_reverse, reverseInPlace_eq_reverse, ← hq]
+      have := map_rev_win id oa.qual fr to (by omega) (by omega)
+      simpa using this
+  refine ⟨vput (vput v b (some ⟨win oa.seq fr to, win oa.qual fr to, [], oa.ann⟩)) c
+      (some ⟨revcompInPlace (win oa.seq fr to), reverseInPlace (win oa.qual fr to), [], oa.ann⟩),
+    vput (vput v r (some ⟨revcompInPlace oa.seq, reverseInPlace oa.qual, oa.feat, oa.ann⟩)) d
+      (some ⟨win (revcompInPlace oa.seq) (oa.seq.length - to) (oa.seq.length - fr),
+        win (reverseInPlace oa.qual) (oa.seq.length - to) (oa.seq.length - fr), [], oa.ann⟩), ?_, ?_, ?_, ?_⟩
+  · simp only [vrun, vstep, ha, hb, w1, hft, if_true, vput_same, vput_ne _ _ (Ne.symm hbc), hc]
+  · have hlt : oa.seq.length - to < oa.seq.length - fr := by omega
+    simp only [vrun, vstep, ha, hr, vput_same, vput_ne _ _ (Ne.symm hrd), hd, hl, w2, hlt, if_true]
+  · rw [vput_same, vput_same, es, eq]
+  · rw [vput_same]
+
+open ObiVerif.SeqHeap in
+/-- **rc of a subsequence = mirrored subsequence of rc, on the heap**, for all decisions of the pool in
+both histories (they may differ): the two derived objects show the same bases, qualities, features and
+annotations -/
+theorem heap_rc_sub {h : Heap} (hI : Inv h) (ch ch' : Nat → Nat → Nat) (i j : Nat) (a b c r d : String)
+    (oa : OV) (fr to : Nat)
+    (ha : h.view a = some oa) (hb : h.view b = none) (hc : h.view c = none) (hr : h.view r = none)
+    (hd : h.view d = none) (hbc : b ≠ c) (hrd : r ≠ d) (hft : fr < to) (hto : to ≤ oa.seq.length)
+    (hq : oa.qual = [] ∨ oa.qual.length = oa.seq.length) :
+    ∃ h1 h2, SeqHeap.run h ch i [.sub a b fr to false, .rc b c] = .ok h1 ∧
+      SeqHeap.run h ch' j [.rc a r, .sub r d ((oa.seq.length - to : Nat) : Int) ((oa.seq.length - fr : Nat) : Int) false] = .ok h2 ∧
+      h1.view c = h2.view d ∧
+      h1.view c = some ⟨revcompInPlace (win oa.seq fr to), reverseInPlace (win oa.qual fr to), [], oa.ann⟩ := by
+  obtain ⟨v1, v2, e1, e2, e3, e4⟩ := vrun_rc_sub h.view a b c r d oa fr to ha hb hc hr hd hbc hrd hft hto hq
+  obtain ⟨h1, r1, q1⟩ := run_of_vrun (ch := ch) (i := i) hI e1
+  obtain ⟨h2, r2, q2⟩ := run_of_vrun (ch := ch') (i := j) hI e2
+  exact ⟨h1, h2, r1, r2, by rw [q1, q2]; exact e3, by rw [q1]; exact e4⟩
+
+/-- non-vacuity of `vrun_rc_sub` -/
+example : ∃ v1 v2,
+    SeqHeap.vrun (SeqHeap.vput (fun _ => none) "a" (some ⟨[97, 97, 99, 103, 116], [1, 2, 3, 4, 5], [], []⟩))
+      [.sub "a" "b" 1 3 false, .rc "b" "c"] = .ok v1 ∧
+    SeqHeap.vrun (SeqHeap.vput (fun _ => none) "a" (some ⟨[97, 97, 99, 103, 116], [1, 2, 3, 4, 5], [], []⟩))
+      [.rc "a" "r", .sub "r" "d" 2 4 false] = .ok v2 ∧ v1 "c" = v2 "d" ∧
+    v1 "c" = some ⟨revcompInPlace [97, 99], reverseInPlace [2, 3], [], []⟩ :=
+  vrun_rc_sub _ "a" "b" "c" "r" "d" ⟨[97, 97, 99, 103, 116], [1, 2, 3, 4, 5], [], []⟩ 1 3
+    (by simp [SeqHeap.vput]) (by simp [SeqHeap.vput]) (by simp [SeqHeap.vput]) (by simp [SeqHeap.vput])
+    (by simp [SeqHeap.vput]) (by decide) (by decide) (by decide) (by decide) (Or.inr rfl)
+
+/-! ## The repaired defect, as a theorem about the OLD `SetFeatures`
+
+`Heap.setFeaturesOld` is `SetFeatures` as it was (`RecycleSlice(&s.feature); s.feature = feature`). -/
+
+open ObiVerif.SeqHeap in
+/-- the state after `a := NewBioSequence("acgt"); b := a.Copy()` (pool empty, every `GetSlice` ran `New`) -/
+def demoHeap : Heap :=
+  match SeqHeap.run Heap.empty (fun _ _ => 0) 0 [.new "a" [97, 99, 103, 116] none, .copy "a" "b"] with
+  | .ok h => h
+  | .error _ => Heap.empty
+
+/-- `"FT   source 1..8"` -/
+def demoFeat : Bytes := [70, 84, 32, 32, 32, 115, 111, 117, 114, 99, 101, 32, 49, 46, 46, 56]
+
+set_option maxRecDepth 8192 in
+open ObiVerif.SeqHeap in
+/-- **counterexample for the old `SetFeatures`** (defect repaired by
+notes/patches/C07-pool-keeps-address-of-live-field.diff): after `b := a.Copy(); b.SetFeatures(feat)` with
+the OLD code, (1) the pool holds the address of the live field `b.feature`, so the heap invariant is
+lost; (2) the very next `NewBioSequence("tttttttt")` gets that field's array from `GetSlice`: `c.sequence`
+and `b.feature` show the same backing array and `b.Features()` reads `"ttttttttrce 1..8"`.  With the
+repaired `setFeatures` none of this happens (`heap_run_inv`, `no_shared_buffer`, `heap_frame`). -/
+theorem setFeaturesOld_breaks :
+    SeqHeap.run Heap.empty (fun _ _ => 0) 0 [.new "a" [97, 99, 103, 116] none, .copy "a" "b"] = .ok demoHeap ∧
+    Inv demoHeap ∧ demoHeap.objs "b" = some ⟨3, []⟩ ∧
+    (let h1 := demoHeap.setFeaturesOld 3 demoFeat 0
+     5 ∈ h1.pool ∧ Fld h1 5 ∧ ¬ Inv h1 ∧ (h1.view "b").map (·.feat) = some demoFeat ∧
+     ∃ h2, step h1 (fun _ => 0) (.new "c" [116, 116, 116, 116, 116, 116, 116, 116] none) = .ok h2 ∧
+       (h2.view "b").map (·.feat) = some ([116, 116, 116, 116, 116, 116, 116, 116] ++ demoFeat.drop 8) ∧
+       (h2.objs "c").map (·.base) = some 6 ∧
+       (h2.cells 5).map (·.buf) = (h2.cells 6).map (·.buf) ∧ (h2.cells 6).isSome) := by
+  have hrun : SeqHeap.run Heap.empty (fun _ _ => 0) 0 [.new "a" [97, 99, 103, 116] none, .copy "a" "b"] = .ok demoHeap := rfl
+  have hb : demoHeap.objs "b" = some ⟨3, []⟩ := rfl
+  refine ⟨hrun, heap_run_inv _ _ 0 _ _ Inv.empty hrun, hb, ?_⟩
+  have hp0 : (demoHeap.setFeaturesOld 3 demoFeat 0).pool = [5] := rfl
+  have hp : 5 ∈ (demoHeap.setFeaturesOld 3 demoFeat 0).pool := by rw [hp0]; simp
+  have hf : Fld (demoHeap.setFeaturesOld 3 demoFeat 0) 5 := ⟨"b", ⟨3, []⟩, hb, by decide, by decide⟩
+  exact ⟨hp, hf, fun hI => hI.poolNotFld 5 hp hf, rfl, _, rfl, rfl, rfl, rfl, rfl⟩
 
 end ObiVerif.Props.C07
